@@ -1,4 +1,5 @@
 import AtsimModel.Lemmas.ExprReal
+import AtsimModel.Lemmas.PolyReal
 import AtsimModel.Gen.Forms
 import AtsimModel.Gen.Combinators
 import Mathlib.Tactic.NormNum
@@ -10,9 +11,10 @@ All terms `Atsim.Gen.*` are REGENERATED from /repo's current source on every run
 theorems are re-checked against what the code says now.  Statements are over ℝ (binary64 rounding is not modelled).
 -/
 set_option linter.unusedVariables false
+set_option linter.unusedTactic false
 set_option linter.unusedSimpArgs false
 namespace Atsim.C07
-open Atsim Atsim.E Atsim.Gen Real
+open Atsim Atsim.E Atsim.Gen Atsim.Poly Real
 
 /-- abbreviation: value of a generated term with parameters `ps` at separation `x` -/
 noncomputable abbrev ev (ps : List ℝ) (e : E) (x : ℝ) : ℝ := evalR (envOf ps) noSyms x e
@@ -25,16 +27,14 @@ theorem C07_buck_d1 (A rho C r : ℝ) (hr : 0 < r) (hrho : rho ≠ 0) :
     (by simp [Dom, evalR, buck_call, envOf, hrho, hr.ne'])
   refine h.congr_deriv ?_
   simp only [ev, evalR, D, envOf, buck_call, buck_deriv, List.getD_cons_succ, List.getD_cons_zero]
-  field_simp
-  ring
+  deriv_close
 theorem C07_buck_d2 (A rho C r : ℝ) (hr : 0 < r) (hrho : rho ≠ 0) :
     HasDerivAt (ev [A, rho, C] buck_deriv) (ev [A, rho, C] buck_deriv2 r) r := by
   have h := hasDerivAt_evalR (envOf [A, rho, C]) noSyms buck_deriv r
     (by simp [Dom, evalR, buck_deriv, envOf, hrho, hr.ne'])
   refine h.congr_deriv ?_
   simp only [ev, evalR, D, envOf, buck_deriv, buck_deriv2, List.getD_cons_succ, List.getD_cons_zero]
-  field_simp
-  ring
+  deriv_close
 
 theorem C07_bornmayer_d1 (A rho r : ℝ) (hr : 0 < r) (hrho : rho ≠ 0) :
     HasDerivAt (ev [A, rho] bornmayer_call) (ev [A, rho] bornmayer_deriv r) r := by
@@ -42,16 +42,14 @@ theorem C07_bornmayer_d1 (A rho r : ℝ) (hr : 0 < r) (hrho : rho ≠ 0) :
     (by simp [Dom, evalR, bornmayer_call, envOf, hrho, hr.ne'])
   refine h.congr_deriv ?_
   simp only [ev, evalR, D, envOf, bornmayer_call, bornmayer_deriv, List.getD_cons_succ, List.getD_cons_zero]
-  field_simp
-  ring
+  deriv_close
 theorem C07_bornmayer_d2 (A rho r : ℝ) (hr : 0 < r) (hrho : rho ≠ 0) :
     HasDerivAt (ev [A, rho] bornmayer_deriv) (ev [A, rho] bornmayer_deriv2 r) r := by
   have h := hasDerivAt_evalR (envOf [A, rho]) noSyms bornmayer_deriv r
     (by simp [Dom, evalR, bornmayer_deriv, envOf, hrho, hr.ne'])
   refine h.congr_deriv ?_
   simp only [ev, evalR, D, envOf, bornmayer_deriv, bornmayer_deriv2, List.getD_cons_succ, List.getD_cons_zero]
-  field_simp
-  ring
+  deriv_close
 
 theorem C07_constant_d1 (c r : ℝ) : HasDerivAt (ev [c] constant_call) (ev [c] constant_deriv r) r := by
   have h := hasDerivAt_evalR (envOf [c]) noSyms constant_call r (by simp [Dom, constant_call])
@@ -95,30 +93,26 @@ theorem C07_hbnd_d1 (A B r : ℝ) (hr : 0 < r) : HasDerivAt (ev [A, B] hbnd_call
     (by simp [Dom, evalR, hbnd_call, envOf, hr.ne'])
   refine h.congr_deriv ?_
   simp only [ev, evalR, D, envOf, hbnd_call, hbnd_deriv, List.getD_cons_succ, List.getD_cons_zero]
-  field_simp
-  ring
+  deriv_close
 theorem C07_hbnd_d2 (A B r : ℝ) (hr : 0 < r) : HasDerivAt (ev [A, B] hbnd_deriv) (ev [A, B] hbnd_deriv2 r) r := by
   have h := hasDerivAt_evalR (envOf [A, B]) noSyms hbnd_deriv r
     (by simp [Dom, evalR, hbnd_deriv, envOf, hr.ne'])
   refine h.congr_deriv ?_
   simp only [ev, evalR, D, envOf, hbnd_deriv, hbnd_deriv2, List.getD_cons_succ, List.getD_cons_zero]
-  field_simp
-  ring
+  deriv_close
 
 theorem C07_lj_d1 (eps sigma r : ℝ) (hr : 0 < r) : HasDerivAt (ev [eps, sigma] lj_call) (ev [eps, sigma] lj_deriv r) r := by
   have h := hasDerivAt_evalR (envOf [eps, sigma]) noSyms lj_call r
     (by simp [Dom, evalR, lj_call, envOf, hr.ne'])
   refine h.congr_deriv ?_
   simp only [ev, evalR, D, envOf, lj_call, lj_deriv, List.getD_cons_succ, List.getD_cons_zero]
-  field_simp
-  ring
+  deriv_close
 theorem C07_lj_d2 (eps sigma r : ℝ) (hr : 0 < r) : HasDerivAt (ev [eps, sigma] lj_deriv) (ev [eps, sigma] lj_deriv2 r) r := by
   have h := hasDerivAt_evalR (envOf [eps, sigma]) noSyms lj_deriv r
     (by simp [Dom, evalR, lj_deriv, envOf, hr.ne'])
   refine h.congr_deriv ?_
   simp only [ev, evalR, D, envOf, lj_deriv, lj_deriv2, List.getD_cons_succ, List.getD_cons_zero]
-  field_simp
-  ring
+  deriv_close
 
 theorem C07_morse_d1 (gamma rstar Dp r : ℝ) :
     HasDerivAt (ev [gamma, rstar, Dp] morse_call) (ev [gamma, rstar, Dp] morse_deriv r) r := by
@@ -143,8 +137,7 @@ theorem C07_sqrt_d1 (G r : ℝ) (hr : 0 < r) : HasDerivAt (ev [G] sqrt_call) (ev
   refine h.congr_deriv ?_
   simp only [ev, evalR, D, envOf, sqrt_call, sqrt_deriv, List.getD_cons_succ, List.getD_cons_zero]
   have hs : Real.sqrt r ≠ 0 := (Real.sqrt_pos.mpr hr).ne'
-  field_simp
-  ring
+  deriv_close
 theorem C07_sqrt_d2 (G r : ℝ) (hr : 0 < r) : HasDerivAt (ev [G] sqrt_deriv) (ev [G] sqrt_deriv2 r) r := by
   have hs : Real.sqrt r ≠ 0 := (Real.sqrt_pos.mpr hr).ne'
   have h := hasDerivAt_evalR (envOf [G]) noSyms sqrt_deriv r
@@ -156,8 +149,7 @@ theorem C07_sqrt_d2 (G r : ℝ) (hr : 0 < r) : HasDerivAt (ev [G] sqrt_deriv) (e
   have hsq : Real.sqrt r ^ 2 = r := Real.sq_sqrt hr.le
   norm_num
   rw [h32, hsq]
-  field_simp
-  ring
+  deriv_close
 
 theorem C07_exp_spline_d1 (B0 B1 B2 B3 B4 B5 C r : ℝ) :
     HasDerivAt (ev [B0, B1, B2, B3, B4, B5, C] exp_spline_call) (ev [B0, B1, B2, B3, B4, B5, C] exp_spline_deriv r) r := by
@@ -199,8 +191,7 @@ theorem C07_coul_d1 (qi qj r : ℝ) (hr : 0 < r) :
   refine h.congr_deriv ?_
   simp only [ev, evalR, D, envOf, coul_call, coul_deriv, coulKappa, List.getD_cons_succ, List.getD_cons_zero]
   have := Real.pi_ne_zero
-  field_simp
-  ring
+  deriv_close
 theorem C07_coul_d2 (qi qj r : ℝ) (hr : 0 < r) :
     HasDerivAt (ev [qi, qj] coul_deriv) (ev [qi, qj] coul_deriv2 r) r := by
   have h := hasDerivAt_evalR (envOf [qi, qj]) noSyms coul_deriv r
@@ -208,8 +199,7 @@ theorem C07_coul_d2 (qi qj r : ℝ) (hr : 0 < r) :
   refine h.congr_deriv ?_
   simp only [ev, evalR, D, envOf, coul_deriv, coul_deriv2, List.getD_cons_succ, List.getD_cons_zero]
   have := Real.pi_ne_zero
-  field_simp
-  ring
+  deriv_close
 
 /-! ### ZBL: `deriv` is written with the literal `2.13503407300877` for `1/(0.8854*0.529)`.
     It is the exact derivative of the ZBL energy in which the screening-length constant is that literal (`zblK K`),
@@ -285,8 +275,7 @@ theorem zbl_abs (c κ S a1 a2 a3 a4 b1 b2 b3 b4 r : ℝ) (hr : r ≠ 0) :
   generalize Real.exp (κ * r * S * b2) = e2 at *
   generalize Real.exp (κ * r * S * b3) = e3 at *
   generalize Real.exp (κ * r * S * b4) = e4 at *
-  field_simp
-  ring
+  deriv_close
 
 theorem C07_zbl_d1 (z1 z2 r : ℝ) (hr : 0 < r) (h1 : 0 < z1) (h2 : 0 < z2) :
     HasDerivAt (zblK zblKcode z1 z2) (ev [z1, z2] zbl_deriv r) r := by
@@ -332,37 +321,45 @@ variable (a b da db d2a d2b : ℝ → ℝ)
 
 theorem C07_plus_value (x : ℝ) : cv a b da db d2a d2b plus_potential plus_deriv plus_potential x = a x + b x := by
   simp only [cv, symsAt, evalR, plus_potential]
+  form_close
 theorem C07_product_value (x : ℝ) : cv a b da db d2a d2b product_potential product_deriv product_potential x = a x * b x := by
   simp only [cv, symsAt, evalR, product_potential]
+  form_close
 theorem C07_pow_value (x : ℝ) : cv a b da db d2a d2b pow_potential pow_deriv pow_potential x = a x ^ b x := by
   simp only [cv, symsAt, evalR, pow_potential]
+  form_close
 
 theorem C07_plus_d1 (r : ℝ) (ha : HasDerivAt a (da r) r) (hb : HasDerivAt b (db r) r) :
     HasDerivAt (cv a b da db d2a d2b plus_potential plus_deriv plus_potential)
       (cv a b da db d2a d2b plus_potential plus_deriv plus_deriv r) r := by
   have hf : cv a b da db d2a d2b plus_potential plus_deriv plus_potential = fun x => a x + b x := by
     funext x; simp only [cv, symsAt, evalR, plus_potential]
+    form_close
   rw [hf]
   refine (ha.fun_add hb).congr_deriv ?_
   simp only [cv, symsAt, evalR, plus_deriv]
+  form_close
 theorem C07_plus_d2 (r : ℝ) (hda : HasDerivAt da (d2a r) r) (hdb : HasDerivAt db (d2b r) r) :
     HasDerivAt (cv a b da db d2a d2b plus_potential plus_deriv plus_deriv)
       (cv a b da db d2a d2b plus_potential plus_deriv plus_deriv2 r) r := by
   have hf : cv a b da db d2a d2b plus_potential plus_deriv plus_deriv = fun x => da x + db x := by
     funext x; simp only [cv, symsAt, evalR, plus_deriv]
+    form_close
   rw [hf]
   refine (hda.fun_add hdb).congr_deriv ?_
   simp only [cv, symsAt, evalR, plus_deriv2]
+  form_close
 
 theorem C07_product_d1 (r : ℝ) (ha : HasDerivAt a (da r) r) (hb : HasDerivAt b (db r) r) :
     HasDerivAt (cv a b da db d2a d2b product_potential product_deriv product_potential)
       (cv a b da db d2a d2b product_potential product_deriv product_deriv r) r := by
   have hf : cv a b da db d2a d2b product_potential product_deriv product_potential = fun x => a x * b x := by
     funext x; simp only [cv, symsAt, evalR, product_potential]
+    form_close
   rw [hf]
   refine (ha.fun_mul hb).congr_deriv ?_
   simp only [cv, symsAt, evalR, product_deriv]
-  ring
+  deriv_close
 /-- second order, including the `2 a' b'` cross term -/
 theorem C07_product_d2 (r : ℝ) (ha : HasDerivAt a (da r) r) (hb : HasDerivAt b (db r) r)
     (hda : HasDerivAt da (d2a r) r) (hdb : HasDerivAt db (d2b r) r) :
@@ -371,24 +368,24 @@ theorem C07_product_d2 (r : ℝ) (ha : HasDerivAt a (da r) r) (hb : HasDerivAt b
   have hf : cv a b da db d2a d2b product_potential product_deriv product_deriv
       = fun x => a x * db x + b x * da x := by
     funext x; simp only [cv, symsAt, evalR, product_deriv]
+    form_close
   rw [hf]
   refine ((ha.fun_mul hdb).fun_add (hb.fun_mul hda)).congr_deriv ?_
   simp only [cv, symsAt, evalR, product_deriv2]
-  push_cast
-  ring
+  deriv_close
 
 theorem C07_pow_d1 (r : ℝ) (hpos : 0 < a r) (ha : HasDerivAt a (da r) r) (hb : HasDerivAt b (db r) r) :
     HasDerivAt (cv a b da db d2a d2b pow_potential pow_deriv pow_potential)
       (cv a b da db d2a d2b pow_potential pow_deriv pow_deriv r) r := by
   have hf : cv a b da db d2a d2b pow_potential pow_deriv pow_potential = fun x => a x ^ b x := by
     funext x; simp only [cv, symsAt, evalR, pow_potential]
+    form_close
   rw [hf]
   refine (ha.rpow hb hpos).congr_deriv ?_
   simp only [cv, symsAt, evalR, pow_deriv, pow_potential]
   have hne : a r ≠ 0 := ne_of_gt hpos
   rw [Real.rpow_sub_one hne]
-  field_simp
-  ring
+  deriv_close
 theorem C07_pow_d2 (r : ℝ) (hpos : ∀ x, 0 < a x) (ha : ∀ x, HasDerivAt a (da x) x) (hb : ∀ x, HasDerivAt b (db x) x)
     (hda : HasDerivAt da (d2a r) r) (hdb : HasDerivAt db (d2b r) r) :
     HasDerivAt (cv a b da db d2a d2b pow_potential pow_deriv pow_deriv)
@@ -396,6 +393,7 @@ theorem C07_pow_d2 (r : ℝ) (hpos : ∀ x, 0 < a x) (ha : ∀ x, HasDerivAt a (
   have hf : cv a b da db d2a d2b pow_potential pow_deriv pow_deriv
       = fun x => (a x ^ b x) * (db x * Real.log (a x) + b x * da x / a x) := by
     funext x; simp only [cv, symsAt, evalR, pow_deriv, pow_potential]
+    form_close
   rw [hf]
   have hne : a r ≠ 0 := ne_of_gt (hpos r)
   have hp : HasDerivAt (fun x => a x ^ b x) ((a r ^ b r) * (db r * Real.log (a r) + b r * da r / a r)) r := by
@@ -408,8 +406,7 @@ theorem C07_pow_d2 (r : ℝ) (hpos : ∀ x, 0 < a x) (ha : ∀ x, HasDerivAt a (
   have h2 := ((hb r).fun_mul hda).fun_div (ha r) hne
   refine (hp.fun_mul (h1.fun_add h2)).congr_deriv ?_
   simp only [cv, symsAt, evalR, pow_deriv2, pow_deriv, pow_potential]
-  field_simp
-  ring
+  deriv_close
 end combinators
 
 /-- `trans(f, as.constant X)`: `deriv(r) = f.deriv(r + X)` is the derivative of `r ↦ f(r + X)` (and likewise one order up) -/
@@ -418,20 +415,7 @@ theorem C07_trans (f f' : ℝ → ℝ) (X r : ℝ) (h : HasDerivAt f (f' (r + X)
 
 /-! ## polynomial of any order (hand model of the comprehension; the varargs signature is outside the translator's fragment) -/
 
-/-- `sum(r**float(i) * c for (i, c) in enumerate(coefs))` starting the enumeration at `i0` -/
-noncomputable def polyVal (i0 : Nat) : List ℝ → ℝ → ℝ
-  | [], _ => 0
-  | c :: cs, r => r ^ i0 * c + polyVal (i0 + 1) cs r
-/-- `sum(float(i) * r**float(i-1) * c ...)` over the terms with `i ≥ 1` -/
-noncomputable def polyD1 (i0 : Nat) : List ℝ → ℝ → ℝ
-  | [], _ => 0
-  | c :: cs, r => (if i0 = 0 then 0 else (i0 : ℝ) * r ^ (i0 - 1) * c) + polyD1 (i0 + 1) cs r
-/-- `sum(i * float(i-1) * r**float(i-2) * c ...)` over the terms with `i ≥ 2` -/
-noncomputable def polyD2 (i0 : Nat) : List ℝ → ℝ → ℝ
-  | [], _ => 0
-  | c :: cs, r => (if i0 < 2 then 0 else (i0 : ℝ) * ((i0 : ℝ) - 1) * r ^ (i0 - 2) * c) + polyD2 (i0 + 1) cs r
-
-/-- every order, every coefficient list, every r INCLUDING r = 0 -/
+/-- `polyVal/polyD1/polyD2` (Lemmas/PolyReal.lean) are `polynomial.__call__/deriv/deriv2`; every order, every coefficient list, every r INCLUDING r = 0 -/
 theorem C07_polynomial_d1 (cs : List ℝ) (i0 : Nat) (r : ℝ) : HasDerivAt (polyVal i0 cs) (polyD1 i0 cs r) r := by
   induction cs generalizing i0 with
   | nil =>
